@@ -52,3 +52,27 @@ Theorem C18_after_restart :
     cbD (norm c d) = None -> snd (cs_current c d) = onum (lb (load_p (norm c d))).
 Proof. exact current_after_restart. Qed.
 Print Assumptions C18_after_restart.
+
+(* 'restart required' is derived in the Dart layer (shorebird_updater_io.dart) from the two numbers the
+   library reports; the source text of that derivation is regenerated from the Dart file on every run
+   (gen/AbiTables.v): in both places it is "a next patch exists and its number differs from the current
+   one", and a reported number is a patch exactly when it is positive (0 = none, as the C API promises).
+   With C18_no_spurious_restart_required and C09_install_selects this is the sentence "becomes true
+   exactly when a different patch has been installed for the next launch". *)
+From UVG Require Import AbiTables.
+Theorem C18_dart_restart_required_formula :
+  dart_restart_required_exprs =
+    ["next != null && current?.number != next.number"%string;
+     "next != null && current?.number != next.number"%string] /\
+  dart_patch_of_number_exprs = ["patchNumber > 0 ? Patch(number: patchNumber) : null"%string].
+Proof. split; reflexivity. Qed.
+Print Assumptions C18_dart_restart_required_formula.
+
+(* the same formula over the model's outputs: with next = n and current = c as reported numbers *)
+Definition restart_required (cur next : N) : bool := negb (N.eqb next 0) && negb (N.eqb cur next).
+Theorem C18_restart_required_iff_different_selection :
+  forall cur next, restart_required cur next = true <-> next <> 0 /\ cur <> next.
+Proof.
+  intros cur next. unfold restart_required. rewrite Bool.andb_true_iff, !Bool.negb_true_iff, !N.eqb_neq. tauto.
+Qed.
+Print Assumptions C18_restart_required_iff_different_selection.
